@@ -15,11 +15,6 @@ import XotModel.Model.SerTokens
 
 namespace XotModel
 
-/-- `http://www.w3.org/2000/xmlns/` -/
-def xmlnsNamespaceUri : Str :=
-  ['h', 't', 't', 'p', ':', '/', '/', 'w', 'w', 'w', '.', 'w', '3', '.', 'o', 'r', 'g', '/', '2', '0', '0', '0', '/',
-   'x', 'm', 'l', 'n', 's', '/']
-
 /-- A namespace declaration that Namespaces in XML 1.0 allows as far as reserved names and
     undeclaring go. -/
 def declAllowed (env : Env) (p ns : Nat) : Bool :=
